@@ -4,6 +4,7 @@
     the implementation by every run of the check. *)
 From Coq Require Import String Ascii List Bool Arith NArith ZArith.
 From Raven Require Import Base.GoStr Model.Search Model.SearchText Spec.Search Model.SearchClass.
+From Raven Require Spec.SeqSet.
 Import ListNotations.
 Local Open Scope Z_scope.
 
@@ -18,30 +19,43 @@ Definition wit_m3 : str :=
 Definition wit_mb : list smsg :=
   [ mk_smsg 1 [S_ "\Seen"] wit_m1 (2026, 10, 1); mk_smsg 2 [S_ "foobar"] wit_m2 (2026, 10, 1); mk_smsg 3 [] wit_m3 (2026, 10, 1) ].
 
+Definition sone (n : Z) : Spec.SeqSet.item := Spec.SeqSet.One (Spec.SeqSet.Num n).
+Definition srange (a b : Z) : Spec.SeqSet.item := Spec.SeqSet.Range (Spec.SeqSet.Num a) (Spec.SeqSet.Num b).
 Definition t_ : str := S_ "t".
 Definition search_line (ks : list key) (mb : list smsg) : reply :=
   search_cmd (t_ :: S_ "SEARCH" :: fields (print_prog ks)) (to_msgs mb).
 Definition uid_search_line (ks : list key) (mb : list smsg) : reply :=
-  handle_uid_search (t_ :: S_ "UID" :: S_ "SEARCH" :: fields (print_prog ks)) (to_msgs mb).
+  uid_search_cmd (t_ :: S_ "UID" :: S_ "SEARCH" :: fields (print_prog ks)) (to_msgs mb).
 
 (** a well-formed program of class [c] whose SEARCH reply violates the specification *)
 Definition refutes (c : cls) (ks : list key) (mb : list smsg) : Prop :=
   wf_prog ks = true /\ classify_line ks mb = Some c /\ reply_ok (search_line ks mb) (spec_search ks mb) = false.
-Definition refutes_uid (c : cls) (ks : list key) (mb : list smsg) : Prop :=
-  wf_prog ks = true /\ classify_uid_line ks = Some c /\ reply_ok (uid_search_line ks mb) (spec_uid_search ks mb) = false.
 
 Ltac witness ks := exists ks, wit_mb; vm_compute; repeat split; reflexivity.
 
-Lemma refuted_comma_set : exists ks mb, refutes CCommaSet ks mb.
-Proof. witness [KSeq [SOne (SNum (S_ "1")); SOne (SNum (S_ "3"))]]. Qed.
-Lemma refuted_star : exists ks mb, refutes CStar ks mb.
-Proof. witness [KSeq [SOne SStar]]. Qed.
-Lemma refuted_reversed_range : exists ks mb, refutes CReversedRange ks mb.
-Proof. witness [KSeq [SRange (SNum (S_ "3")) (SNum (S_ "1"))]]. Qed.
-Lemma refuted_paren_group : exists ks mb, refutes CParenGroup ks mb.
-Proof. witness [KGroup [KHas FSeen]]. Qed.
-Lemma refuted_not_or_arity : exists ks mb, refutes CNotOrArity ks mb.
-Proof. witness [KNot (KHeader (S_ "Subject") (S_ "hello"))]. Qed.
+(** regression (fix 32751d9, SEARCH sets follow RFC 3501): a comma list was an
+    unknown token (matched everything), "*" matched everything, a reversed range
+    nothing; the former witnesses meet the specification *)
+Lemma sets_repaired :
+  search_line [KSeq [sone 1; sone 3]] wit_mb = ROk [1; 3]
+  /\ search_line [KSeq [Spec.SeqSet.One Spec.SeqSet.Star]] wit_mb = ROk [3]
+  /\ search_line [KSeq [srange 3 1]] wit_mb = ROk [1; 2; 3]
+  /\ search_line [KUid [Spec.SeqSet.Range (Spec.SeqSet.Num 2) Spec.SeqSet.Star; sone 1]; KNot (KSeq [sone 2])] wit_mb = ROk [1; 3]
+  /\ classify_line [KUid [Spec.SeqSet.Range (Spec.SeqSet.Num 2) Spec.SeqSet.Star; sone 1]; KNot (KSeq [sone 2])] wit_mb = None.
+Proof. vm_compute. repeat split; reflexivity. Qed.
+(** regression (fix "NOT and OR take complete search keys"): NOT / OR took one
+    token plus at most one argument and a parenthesised list was an unknown
+    token that matched everything; the former witnesses, and nested forms, now
+    meet the specification *)
+Definition ex_nested : list key :=
+  [ KOr (KGroup [KHas FSeen; KHdr HFrom (S_ "alice")]) (KNot (KOr (KHeader (S_ "Subject") (S_ "other")) (KNot (KGroup [KGroup [KText (S_ "three")]])))) ].
+Lemma arity_repaired :
+  search_line [KGroup [KHas FSeen]] wit_mb = ROk [1]
+  /\ search_line [KNot (KHeader (S_ "Subject") (S_ "hello"))] wit_mb = ROk [2; 3]
+  /\ wf_prog ex_nested = true /\ classify_line ex_nested wit_mb = None
+  /\ print_prog ex_nested = S_ "OR (SEEN FROM ""alice"") NOT OR HEADER ""Subject"" ""other"" NOT ((TEXT ""three""))"
+  /\ search_line ex_nested wit_mb = ROk [1; 3] /\ spec_search ex_nested wit_mb = SOk [1; 3].
+Proof. vm_compute. repeat split; reflexivity. Qed.
 Lemma refuted_unknown_key : exists ks mb, refutes CUnknownKey ks mb.
 Proof. witness [KUnknown (S_ "FOO")]. Qed.
 (** regression (fix 378938d): flags used to be tested with strings.Contains on
@@ -58,10 +72,18 @@ Lemma refuted_text_atom_sent_date : exists ks mb, refutes CTextAtom ks mb.
 Proof. witness [KDate true COn (S_ "3", 1, S_ "2006")]. Qed.
 Lemma refuted_quoted_space : exists ks mb, refutes CQuotedSpace ks mb.
 Proof. witness [KHdr HSubject (S_ "Hello  World")]. Qed.
-Lemma refuted_uid_search_single : exists ks mb, refutes_uid CUidSingle ks mb.
-Proof. witness [KUid [SOne (SNum (S_ "2"))]]. Qed.
-Lemma refuted_uid_search_ignores_keys : exists ks mb, refutes_uid CUidIgnoresKeys ks mb.
-Proof. witness [KUn FSeen]. Qed.
+(** regression (fix "UID SEARCH runs the SEARCH evaluator"): uid.handleUIDSearch
+    was a separate implementation that evaluated only ALL and the first UID a:b
+    (UID SEARCH UNSEEN returned every UID, UID SEARCH UID 2 nothing); the former
+    witnesses now meet the specification, and a class of SEARCH is the same class
+    of UID SEARCH *)
+Lemma uid_search_repaired :
+  uid_search_line [KUn FSeen] wit_mb = ROk [2; 3]
+  /\ reply_ok (uid_search_line [KUn FSeen] wit_mb) (spec_uid_search [KUn FSeen] wit_mb) = true
+  /\ uid_search_line [KUid [sone 2]] wit_mb = ROk [2]
+  /\ reply_ok (uid_search_line [KUid [sone 2]] wit_mb) (spec_uid_search [KUid [sone 2]] wit_mb) = true
+  /\ uid_search_line [KNot (KHas FSeen); KHdr HFrom (S_ "bob")] wit_mb = ROk [2].
+Proof. vm_compute. repeat split; reflexivity. Qed.
 
 (** regression (fix bb43d4f): OR followed by one operand with argument and
     nothing else used to read tokens[i] out of range (the process ended); the
@@ -94,12 +116,12 @@ Proof. vm_compute. repeat split; reflexivity. Qed.
     over such mailboxes as over any other) *)
 Definition copy_mb : list smsg :=
   [ mk_smsg 1 [S_ "\Recent"] wit_m2 (2026, 10, 1); mk_smsg 2 [S_ "\Recent"] wit_m2 (2026, 10, 2); mk_smsg 3 [S_ "\Recent"] wit_m3 (2026, 10, 2) ].
-Definition one_ (d : string) : key := KSeq [SOne (SNum (S_ d))].
+Definition one_ (n : Z) : key := KSeq [sone n].
 Lemma copied_entries_on_their_own :
-  classify_line [KOr (one_ "2") (KHdr HFrom (S_ "carol"))] copy_mb = None
-  /\ search_line [one_ "1"] copy_mb = ROk [1] /\ search_line [one_ "2"] copy_mb = ROk [2]
-  /\ search_line [KNot (one_ "1")] copy_mb = ROk [2; 3]
-  /\ search_line [KOr (one_ "2") (KHdr HFrom (S_ "carol"))] copy_mb = ROk [2; 3]
-  /\ search_line [KUid [SRange (SNum (S_ "2")) (SNum (S_ "3"))]] copy_mb = ROk [2; 3]
+  classify_line [KOr (one_ 2) (KHdr HFrom (S_ "carol"))] copy_mb = None
+  /\ search_line [one_ 1] copy_mb = ROk [1] /\ search_line [one_ 2] copy_mb = ROk [2]
+  /\ search_line [KNot (one_ 1)] copy_mb = ROk [2; 3]
+  /\ search_line [KOr (one_ 2) (KHdr HFrom (S_ "carol"))] copy_mb = ROk [2; 3]
+  /\ search_line [KUid [srange 2 3]] copy_mb = ROk [2; 3]
   /\ search_line [KDate false COn (S_ "1", 10, S_ "2026")] copy_mb = ROk [1].
 Proof. vm_compute. repeat split; reflexivity. Qed.
